@@ -266,3 +266,48 @@ def run(chk):
     chk.not_covered += ["that the emulator prints the constant (needs HUGR/selene semantics): payload equality is what is proved",
                         "comptime expressions other than int/tuple/list constants"]
     chk.use_engine(e)
+    chk.section("reported-values", lambda: reported_values(chk))
+
+
+REPLAY_REPORT = r'''
+import guppy_plainbool
+import tempfile, importlib.util, os, sys, shutil
+I = INPUT
+v, ty, how = I["value"], I["type"], I["how"]
+stmt = {"literal": f"result('v', {v})", "variable": f"x: {ty} = {v}\n    result('v', x)", "computed": f"x: {ty} = {v}\n    y = x + 0\n    result('v', y)",
+        "comptime": f"x: {ty} = comptime({v})\n    result('v', x)"}[how]
+src = f"""from guppylang import guppy
+from guppylang.std.builtins import result, nat, comptime
+@guppy
+def main() -> None:
+    {stmt}
+"""
+d = tempfile.mkdtemp(dir=os.environ.get("TMPDIR", "/var/tmp")); fn = os.path.join(d, "replay_c17r.py"); open(fn, "w").write(src)
+spec = importlib.util.spec_from_file_location("replay_c17r", fn); m = importlib.util.module_from_spec(spec); sys.modules["replay_c17r"] = m
+spec.loader.exec_module(m)
+got = [int(x) for t, x in list(m.main.emulator(n_qubits=1).run().results)[0].entries]
+shutil.rmtree(d, ignore_errors=True)
+print(json.dumps({"violates": got != [v], "evaluations": 1, "observed": got, "required": [v], "detail": f"{v} at type {ty} ({how}): the program reports {got}"}))
+'''
+
+
+def reported_values(chk):
+    """BOUNDED: "the compiled program observes exactly that value when reporting": boundary values at int and nat,
+    reported directly, through an annotated variable, after a computation, and as a comptime value."""
+    import json
+    from pyvc.report import run_replay
+    cases = [(v, "int", how) for v in (0, -1, IMAX, IMIN) for how in ("literal", "variable", "computed", "comptime")] + \
+            [(v, "nat", how) for v in (0, 5, IMAX, IMAX + 1, NMAX) for how in ("literal", "variable", "computed", "comptime")]
+    if chk.tier != "thorough":
+        cases = [c for c in cases if c[0] in (IMIN, IMAX, IMAX + 1, NMAX, 5)]
+    for v, ty, how in cases:
+        res = run_replay(REPLAY_REPORT, {"value": v, "type": ty, "how": how}, chk.repo, timeout=600)
+        name = f"bounded:reported[{v} at {ty}, {how}]:the-program-reports-exactly-the-value"
+        if "evaluations" not in res:
+            chk.undecided(name, "oracle run failed: " + json.dumps(res)[:500])
+            continue
+        o = chk.bounded_result(name, not res.get("violates"), 1, detail=res.get("detail"), witness={"observed": res.get("observed")} if res.get("violates") else None,
+                               func="guppylang.std.platform:result")
+        if res.get("violates"):
+            o.replay.update({"script": REPLAY_REPORT, "input": {"value": v, "type": ty, "how": how}})
+
